@@ -13,7 +13,9 @@ package c06
 //	P   every snapshot a poller sees has no overlap; between two snapshots of one poller no id goes
 //	    back in version / conf_ver / term unless some accepted heartbeat of the case could displace it
 //
-// Storage is not examined: the statement claims it only for one-at-a-time handling.
+// Storage is not examined: the statement claims it only for one-at-a-time handling. Only
+// the routing is (rs_test.go): the backend that the configuration does not name for
+// regions holds no region record at the end.
 
 import (
 	"fmt"
@@ -128,7 +130,7 @@ func runConc(c ConcCase) (vkit.Info, error) {
 func runConcOnce(c ConcCase, cls *classSet) (vkit.Info, error) {
 	var info vkit.Info
 	s := simulate(c.Stores, c.Collide, c.Events)
-	f, err := newFixture(s.stores, c.Enc)
+	f, err := newFixture(s.stores, c.Enc, c.RS)
 	if err == errFixture {
 		info.Inconclusive = true
 		return info, nil
@@ -139,6 +141,7 @@ func runConcOnce(c ConcCase, cls *classSet) (vkit.Info, error) {
 	if f.enc > 0 {
 		cls.add("encryption-" + encMethods[f.enc])
 	}
+	cls.add("rs-" + rsModes[f.rsMode])
 	defer f.close()
 
 	np := c.Poll
@@ -354,6 +357,13 @@ func runConcOnce(c ConcCase, cls *classSet) (vkit.Info, error) {
 		S0 = S1
 	}
 	stopPollers()
+	// region records only ever go to the backend the configuration names (schedule independent)
+	if err := f.storage.Flush(); err != nil {
+		return info, fmt.Errorf("Storage.Flush: %v", err)
+	}
+	if err := f.otherBackendClean(); err != nil {
+		return info, err
+	}
 	polls := 0
 	for i, p := range pollers {
 		polls += p.polls
